@@ -233,7 +233,7 @@ Proof.
   unfold transfer_tail in Et. destruct (decide (c_new c = ∅)) as [Hn|Hn].
   { inversion Et; subst x; clear Et. cbn [x_delivered x_failed x_succ_dirs].
     destruct (decide (∅ = ∅)); [|done]. cbn [index_succeeded foldl].
-    eapply Inv_same_stores; [exact HI1|cbn; set_solver..|done]. }
+    eapply Inv_same_stores; [exact HI1|cbn; apply union_empty_r_L..|done]. }
   apply do_transfer_ok in Et as (Hdel1 & Hdel2 & Hsucc).
   (* the source was consulted: something is new *)
   destruct (negb (bool_decide (dmiss = ∅)) || false) eqn:Eb.
@@ -251,7 +251,8 @@ Proof.
     destruct (Hdel2 D HD) as (HDnew & _ & Hrule). destruct (Hrule HDd) as (l' & Hl' & Hr).
     apply load_from_trees in Hl' as [_ Hl']. rewrite Hl in Hl'. inversion Hl'; subst l'; clear Hl'.
     (* D was requested, so everything it lists was queried *)
-    assert (HDids : D ∈ ids). { destruct (Hc D) as (_ & HDn & _). apply HDn in HDnew as [? _]. set_solver. }
+    assert (HDids : D ∈ ids). { destruct (Hc D) as (_ & HDn & _). apply HDn in HDnew as [HDs _]. rewrite Hsex in HDs.
+      by apply elem_of_intersection in HDs as [? _]. }
     assert (HDq : D ∈ req).
     { assert (D ∈ req_dirs req) by (eapply queried_dir; eauto using wf_loader_from).
       by apply req_dirs_spec in H as [? _]. }
@@ -267,7 +268,7 @@ Proof.
     destruct (existsb _ l) eqn:Ex1 in Hr; [discriminate|].
     destruct (existsb _ l) eqn:Ex2 in Hr; [discriminate|].
     destruct (decide (o ∈ e_src E)) as [Hos|Hos].
-    - assert (Honew : o ∈ c_new c). { destruct (Hc o) as (_ & -> & _). set_solver. }
+    - assert (Honew : o ∈ c_new c). { destruct (Hc o) as (_ & -> & _). split; [|done]. rewrite Hsex. by apply elem_of_intersection. }
       assert (Honf : o ∈ c_new c ∖ filter (λ o, is_dir_oid o = true) (c_new c)).
       { apply elem_of_difference. split; [done|]. intros Hf. apply elem_of_filter in Hf as [Hf _].
         rewrite (Hlnd o Ho) in Hf. discriminate. }
@@ -280,11 +281,12 @@ Proof.
     - exfalso.
       assert (existsb (λ e, bool_decide (e ∈ c_missing c)) l = true); [|congruence].
       apply existsb_exists. exists o. split; [by apply elem_of_list_In|].
-      apply bool_decide_eq_true. destruct (Hc o) as (_ & _ & _ & ->). set_solver. }
+      apply bool_decide_eq_true. destruct (Hc o) as (_ & _ & _ & ->).
+      split; [rewrite Hsmiss|rewrite Hdmiss]; by apply elem_of_difference. }
   assert (Hsuccl : ∀ D l, (D, l) ∈ x_succ_dirs x → e_trees E !! D = Some l).
   { intros D l H. destruct (Hsucc D l H) as (_ & _ & Hl). by apply load_from_trees in Hl as [_ ?]. }
   split; cbn [s_remote s_idx s_ever].
-  - set_solver.
+  - intros o Ho. apply elem_of_union in Ho as [Ho|Ho]; [apply elem_of_union_l; auto|by apply elem_of_union_r].
   - done.
   - destruct (decide (x_failed x = ∅)); [|intros o Ho; apply elem_of_union_l; auto].
     intros o Ho. apply index_succeeded_dom in Ho as [Ho|(D & l & HDl & Ho)].
